@@ -1,10 +1,13 @@
-"""Independent numeric reference for element tensors on AFFINE SIMPLEX cells (bounded kernel-level contract).
+"""Independent numeric reference for element tensors and expression values (bounded kernel-level contract).
 
-The original UFL form (only derivative expansion and algebra lowering applied - no pull-backs, no geometry lowering, no
-FFCx code) is evaluated with UFL's own pointwise evaluator at physical quadrature points; arguments and coefficients are
-callables built directly from basix tabulations.  Supported: identity-mapped and Piola-mapped basix elements, blocked
-(non-symmetric), mixed and enriched elements; cell and exterior-facet integrals; SpatialCoordinate, FacetNormal,
-CellVolume, Circumradius, FacetArea via explicit geometry.  Anything else raises Unsupported (the form is skipped)."""
+The original UFL integrand / expression (derivative expansion, algebra lowering and restriction propagation only - no
+pull-backs, no integral scaling, no geometry lowering, no FFCx code) is evaluated by the pointwise `Evaluator` below at
+reference points of explicit physical cells; arguments and coefficients are functions built directly from basix
+tabulations (identity / contravariant / covariant Piola maps; blocked incl. symmetric, mixed, enriched elements).
+Geometry is explicit: x(X), J(X), K(X) from the coordinate element and the node positions (affine or not; simplices,
+quadrilaterals, hexahedra), facet normals K^T n_ref, facet scale |J t| / |J t1 x J t2|.  CellVolume, Circumradius,
+FacetArea only on affine cells; second derivatives and derivatives of Piola-mapped functions only on affine cells.
+Anything else raises Unsupported (the kernel is skipped and counted)."""
 from __future__ import annotations
 
 import itertools
@@ -22,58 +25,108 @@ class Unsupported(Exception):
 
 
 # ------------------------------------------------------------------------------------------------ geometry
+REFVOL = {"interval": 1.0, "triangle": 0.5, "tetrahedron": 1 / 6, "quadrilateral": 1.0, "hexahedron": 1.0, "prism": 0.5}
+
+
 class Cell:
-    def __init__(self, cellname, vertices):
-        self.cellname = cellname
-        self.ct = getattr(basix.CellType, cellname)
-        self.v = np.asarray(vertices, dtype=float)
+    """A physical cell: the coordinate element (basix.ufl blocked Lagrange element) and its node positions."""
+
+    def __init__(self, cel, nodes):
+        self.cel = cel
+        self.sub = cel._sub_element if hasattr(cel, "_sub_element") else cel
+        self.cellname = cel.cell_type.name
+        self.ct = cel.cell_type
+        self.v = np.asarray(nodes, dtype=float)  # [node][gdim]
         self.tdim = len(basix.topology(self.ct)) - 1
         self.gdim = self.v.shape[1]
         if self.gdim != self.tdim:
             raise Unsupported("manifold geometry")
-        self.J = (self.v[1:] - self.v[0]).T  # gdim x tdim
-        self.detJ = float(np.linalg.det(self.J))
-        self.K = np.linalg.inv(self.J)
+        self.simplex = self.cellname in ("interval", "triangle", "tetrahedron")
+        self.affine = self.simplex and self.sub.embedded_superdegree == 1
+        self.refgeom = np.array(basix.geometry(self.ct), dtype=float)
+        self.topo = basix.topology(self.ct)
+        self._g = {}
+
+    def geom(self, X):
+        """(x, J, detJ, K) at the reference point X."""
+        key = tuple(np.round(np.asarray(X, dtype=float), 14))
+        g = self._g.get(key)
+        if g is None:
+            t = self.sub._element.tabulate(1, np.asarray([X], dtype=float))  # [1 + tdim][1][node][1]
+            x = t[0][0, :, 0] @ self.v
+            J = np.array([t[1 + d][0, :, 0] @ self.v for d in range(self.tdim)]).T  # gdim x tdim
+            detJ = float(np.linalg.det(J))
+            g = self._g[key] = (x, J, detJ, np.linalg.inv(J))
+        return g
 
     def push(self, X):
-        return self.v[0] + self.J @ np.asarray(X)
+        return self.geom(X)[0]
 
-    def pull(self, x):
-        return self.K @ (np.asarray(x, dtype=float) - self.v[0])
+    def _need_affine(self, what):
+        if not self.affine:
+            raise Unsupported(f"{what} on a non-affine cell")
 
     def volume(self):
-        ref = {"interval": 1.0, "triangle": 0.5, "tetrahedron": 1 / 6}[self.cellname]
-        return abs(self.detJ) * ref
+        self._need_affine("CellVolume")
+        return abs(self.geom(self.refgeom[0])[2]) * REFVOL[self.cellname]
 
-    def facet(self, f):
-        topo = basix.topology(self.ct)[self.tdim - 1][f]
-        return self.v[list(topo)]
+    def vertices(self):
+        return self.v[: len(self.topo[0])]
+
+    def facet_vertices(self, f):
+        return list(self.topo[self.tdim - 1][f])
+
+    def ref_facet_frame(self, f):
+        """Reference facet f as origin + tangents: the facet point map is X = p0 + sum_i s_i t_i."""
+        p = self.refgeom[self.facet_vertices(f)]
+        return p[0], [p[i] - p[0] for i in range(1, self.tdim)]
+
+    def ref_facet_normal(self, f):
+        p0, ts = self.ref_facet_frame(f)
+        if self.tdim == 1:
+            n = np.array([1.0])
+        elif self.tdim == 2:
+            n = np.array([ts[0][1], -ts[0][0]])
+        else:
+            n = np.cross(ts[0], ts[1])
+        if np.dot(n, p0 - self.refgeom.mean(axis=0)) < 0:
+            n = -n
+        return n
+
+    def facet_normal(self, f, X):
+        _, _, _, K = self.geom(X)
+        n = K.T @ self.ref_facet_normal(f)
+        return n / np.linalg.norm(n)
+
+    def facet_scale(self, f, X):
+        """Physical facet measure per unit of the reference facet parametrisation at X."""
+        _, J, _, _ = self.geom(X)
+        _, ts = self.ref_facet_frame(f)
+        if self.tdim == 1:
+            return 1.0
+        if self.tdim == 2:
+            return float(np.linalg.norm(J @ ts[0]))
+        return float(np.linalg.norm(np.cross(J @ ts[0], J @ ts[1])))
+
+    def facet_points(self, f, Xf):
+        p0, ts = self.ref_facet_frame(f)
+        if self.tdim == 1:
+            return np.array([p0])
+        T = np.array(ts).T
+        return np.array([p0 + T @ np.asarray(X) for X in Xf])
 
     def facet_measure(self, f):
-        p = self.facet(f)
+        self._need_affine("FacetArea")
+        p = self.v[self.facet_vertices(f)]
         if self.tdim == 1:
             return 1.0
         if self.tdim == 2:
             return float(np.linalg.norm(p[1] - p[0]))
         return 0.5 * float(np.linalg.norm(np.cross(p[1] - p[0], p[2] - p[0])))
 
-    def facet_normal(self, f):
-        p = self.facet(f)
-        c = self.v.mean(axis=0)
-        if self.tdim == 1:
-            n = np.array([1.0])
-        elif self.tdim == 2:
-            t = p[1] - p[0]
-            n = np.array([t[1], -t[0]])
-        else:
-            n = np.cross(p[1] - p[0], p[2] - p[0])
-        n = n / np.linalg.norm(n)
-        if np.dot(n, p.mean(axis=0) - c) < 0:
-            n = -n
-        return n
-
     def circumradius(self):
-        v = self.v
+        self._need_affine("Circumradius")
+        v = self.vertices()
         if self.tdim == 1:
             return 0.5 * abs(v[1][0] - v[0][0])
         if self.tdim == 2:
@@ -113,10 +166,18 @@ def ref_tab(el, nd, X):
             d0 += t.shape[1]
             v0 += t.shape[2]
         return out, maps
+    if isinstance(el, basix.ufl._RealElement):
+        vs = int(np.prod(el.reference_value_shape)) if el.reference_value_shape else 1
+        tdim = len(X)
+        nder = int(round(np.prod([(nd + i + 1) / (i + 1) for i in range(tdim)])))  # number of derivatives of order <= nd
+        out = np.zeros((nder, vs, vs))
+        out[0] = np.eye(vs)
+        return out, [("identity", 0, vs)]
     if isinstance(el, basix.ufl._BasixElement):
         t = el._element.tabulate(nd, np.asarray([X], dtype=float))  # [d][1][dofs][vs]
         kind = {basix.MapType.identity: "identity", basix.MapType.contravariantPiola: "contravariant",
-                basix.MapType.covariantPiola: "covariant"}.get(el.map_type)
+                basix.MapType.covariantPiola: "covariant", basix.MapType.doubleCovariantPiola: "double_covariant",
+                basix.MapType.doubleContravariantPiola: "double_contravariant"}.get(el.map_type)
         if kind is None:
             raise Unsupported(f"map type {el.map_type}")
         return t[:, 0], [(kind, 0, t.shape[3])]
@@ -128,7 +189,7 @@ def _deriv_index(tdim, counts):
 
 
 class FEFunction:
-    """x -> value (nested tuple) of sum_d w_d phi_d(x) and its derivatives, on an affine cell."""
+    """X -> value (nested tuple) of sum_d w_d phi_d and its physical derivatives at the reference point X of a cell."""
 
     def __init__(self, el, cell: Cell, dofs):
         self.el, self.cell, self.w = el, cell, np.asarray(dofs)
@@ -141,18 +202,21 @@ class FEFunction:
             self._cache[key] = ref_tab(self.el, nd, X)
         return self._cache[key]
 
-    def __call__(self, x, derivatives=()):
+    def __call__(self, X, derivatives=()):
         cell = self.cell
-        X = cell.pull(x)
         nd = len(derivatives)
         tab, maps = self._tab(X, nd)
+        _, J, detJ, K = cell.geom(X)
         tdim = cell.tdim
-        # physical derivative d/dx_{k1}..d/dx_{km} = sum_l K[l1,k1]..K[lm,km] d/dX_{l1}..d/dX_{lm}
+        piola = any(kind not in ("identity", "symmetric") for kind, _, _ in maps)
+        if not cell.affine and (nd >= 2 or (nd >= 1 and piola)):
+            raise Unsupported("higher derivatives / derivatives of Piola-mapped functions on non-affine geometry")
+        # physical derivative d/dx_{k1}..d/dx_{km} = sum_l K[l1,k1]..K[lm,km] d/dX_{l1}..d/dX_{lm}  (K constant, or m <= 1)
         val = np.zeros(tab.shape[2], dtype=self.w.dtype if np.iscomplexobj(self.w) else float)
         for ls in itertools.product(range(tdim), repeat=nd):
             coef = 1.0
             for l, k in zip(ls, derivatives):
-                coef *= cell.K[l, k]
+                coef *= K[l, k]
             if coef == 0.0:
                 continue
             counts = [0] * tdim
@@ -163,9 +227,15 @@ class FEFunction:
         out = np.array(val)
         for kind, a, b in maps:
             if kind == "contravariant":
-                out[a:b] = (cell.J @ val[a:b]) / cell.detJ
+                out[a:b] = (J @ val[a:b]) / detJ
             elif kind == "covariant":
-                out[a:b] = cell.K.T @ val[a:b]
+                out[a:b] = K.T @ val[a:b]
+            elif kind == "double_covariant":
+                S = val[a:b].reshape(tdim, tdim)
+                out[a:b] = (K.T @ S @ K).reshape(-1)
+            elif kind == "double_contravariant":
+                S = val[a:b].reshape(tdim, tdim)
+                out[a:b] = (J @ S @ J.T / detJ**2).reshape(-1)
         if maps and maps[0][0] == "symmetric":
             n = self.el._block_shape[0]
             pos = {}
@@ -191,8 +261,8 @@ def _nest(flat, shape):
 class Side:
     """Everything that depends on which cell a restricted terminal lives on."""
 
-    def __init__(self, cell: Cell, facet, functions, normal_sign=1.0):
-        self.cell, self.facet, self.functions, self.normal_sign = cell, facet, functions, normal_sign
+    def __init__(self, cell: Cell, facet, functions):
+        self.cell, self.facet, self.functions = cell, facet, functions
 
 
 class Evaluator:
@@ -202,10 +272,18 @@ class Evaluator:
     def __init__(self, sides, constants, complex_mode):
         self.sides, self.constants, self.complex_mode = sides, constants, complex_mode
 
-    def __call__(self, e, x):
-        self.x = x
+    def __call__(self, e, X, comp=()):
+        """X: {side: reference point of that side's cell} with the same keys as `sides`."""
+        self.X = X
         self.memo = {}
-        return self.ev(e, (), {}, None, ())
+        return self.ev(e, comp, {}, None, ())
+
+    def key(self, r):
+        if r in self.sides:
+            return r
+        if r is None and "+" in self.sides:
+            return "+"
+        raise Unsupported(f"restriction {r!r}")
 
     def ev(self, e, comp, env, r, ders):
         if isinstance(e, U.Terminal):
@@ -218,11 +296,7 @@ class Evaluator:
             return v
 
     def side(self, r):
-        if r in self.sides:
-            return self.sides[r]
-        if r is None and "+" in self.sides:
-            return self.sides["+"]
-        raise Unsupported(f"restriction {r!r}")
+        return self.sides[self.key(r)]
 
     # one handler per UFL class (looked up through the MRO once per concrete class)
     def _ev(self, e, comp, env, r, ders):
@@ -407,22 +481,24 @@ class Evaluator:
                 v = v[c]
             return v
         s = self.side(r)
+        X = self.X[self.key(r)]
         if isinstance(e, U.Coefficient | U.Argument):
             f = s.functions.get(e)
             if f is None:
                 raise Unsupported(f"no function for {e!r}")
-            v = f(self.x, ders)
+            v = f(X, ders)
             for c in comp:
                 v = v[c]
             return v
         if isinstance(e, U.SpatialCoordinate):
             if len(ders) == 1:
                 return 1.0 if ders[0] == comp[0] else 0.0
-            return 0.0 if ders else float(self.x[comp[0]])
+            return 0.0 if ders else float(s.cell.push(X)[comp[0]])
         if isinstance(e, U.GeometricQuantity) and ders:
+            s.cell._need_affine("derivative of a geometric quantity")
             return 0.0  # affine cells: every other supported quantity is piecewise constant
         if isinstance(e, U.FacetNormal):
-            return float(s.normal_sign * self.sides[None if None in self.sides else "+"].cell.facet_normal(self.sides[None if None in self.sides else "+"].facet)[comp[0]])
+            return float(s.cell.facet_normal(s.facet, X)[comp[0]])
         if isinstance(e, U.CellVolume):
             return s.cell.volume()
         if isinstance(e, U.Circumradius):
